@@ -510,14 +510,22 @@ impl<K: KeyT, V: ValT> World<K, V> {
                     }
                 }
             }
-            Op::SFromIter { s, items } => {
+            Op::SFromIter { s, items, hint } => {
                 let si = *s as usize;
+                let hint = *hint;
                 let h = self.cfg.set_hashers[si].clone();
                 ctx::with(|c| c.default_hasher = (h.seed, h.mode as u8));
                 let objs: Vec<K> = items.iter().map(|&kv| K::make(kv)).collect();
                 let ids: Vec<u64> = objs.iter().map(|k| k.oid()).collect();
-                let co = call(|| sut(|| objs.into_iter().collect::<Set<K>>()));
+                let co = call(|| {
+                    if hint == 0 {
+                        sut(|| objs.into_iter().collect::<Set<K>>())
+                    } else {
+                        sut(|| LyingIter { inner: objs.into_iter(), hint }.collect::<Set<K>>())
+                    }
+                });
                 match co.result {
+                    Err(pn) if hint == 3 => self.handle_panic(acc, pn, &["capacity-overflow"]),
                     Ok(newset) => {
                         let slot = &mut self.sets[si];
                         let old = std::mem::replace(&mut slot.s, newset);
